@@ -18,7 +18,7 @@ RULE = ("states = (tissue, grid, radius) full product; and histories of assignme
 BOUND = {"quick": "2 tissues x grid 1..12 x 5 radii; assignment histories to depth 3 over 8 assignments at 2 (grid, radius) points; 5 length units 1e-6..1e6 x 3 grids x 2 radii x 4 assignments",
          "thorough": "4 tissues x grid 1..12 x 5 radii x 3 assignments; histories to depth 4; 9 length units 1e-8..1e6 on 2 tissues, histories to depth 2"}
 ASSUMPTIONS = ["tolerance 1e-9 relative for linearity / fresh-frame identity (pure arithmetic)"]
-REQUIRED_TAGS = {"all": ["empty_grid_cell", "full_grid_cell", "pure_pressure", "linearity", "history", "principal", "grid12", "small_length_unit", "large_length_unit"]}
+REQUIRED_TAGS = {"all": ["empty_grid_cell", "full_grid_cell", "pure_pressure", "linearity", "history", "principal", "grid12", "small_length_unit", "large_length_unit", "recalculated_with_other_grid"]}
 
 
 def make_frame(base, cells, unit=1.0):
@@ -206,6 +206,10 @@ class Stress:
                     break
         # principal stresses
         if not viol:
+            if len(d["ops"]) % 2 == 0 or grid % 2 == 0:
+                # an earlier evaluation on the same frame with ANOTHER grid and radius: the report below must be that of the last call only
+                fsutil.call(fr2.calculate_stress_tensor, grid + 1, radius * 0.5)
+                tags.append("recalculated_with_other_grid")
             _, ex = fsutil.call(fr2.calculate_stress_tensor, grid, radius)
             if ex is not None:
                 viol.append({"what": "calculate_stress_tensor raised", "detail": fsutil.exc_str(ex)})
